@@ -151,8 +151,8 @@ def gen_forward(rng: random.Random, tier: str):
         yield {"spec": spec, "grid": tgrid_spec(rng, d, ac=ac, max_size=6 if d == 3 else 8),
                "points": cube_points(rng, d, 5, 1.0) + cube_points(rng, d, 1, 1.25), "index": rng.randrange(3),
                "shape": rng.choice(["NMD", "1MD", "N11MD"])}
-    for d in (2, 3):     # the defective path F-06h stays covered: model and code must raise the same error
-        spec = generic_spec(rng, d, True, params="callable", allow_unset=True)
+    for d in (2, 3):     # callable parameters reach a Shearing child (F-06h, repaired by 5928510)
+        spec = generic_spec(rng, d, True, params="callable")
         spec["transform"], spec["affine_model"] = "Affine", "TKS"
         spec["values"] = {LETTER[ch][0]: linear_values(rng, LETTER[ch][1], d, 1, "tensor", small=True) for ch in "TKS"}
         yield {"spec": spec, "grid": tgrid_spec(rng, d, ac=True), "points": cube_points(rng, d, 3, 1.0), "index": 0,
@@ -349,7 +349,7 @@ def line_disp(c):
     d = g.ndim
     if isinstance(t, S.CompositeTransform):
         same = 1 if og.same_domain_as(g) else 0
-        return f"xf.disp_composite {d} {proto.grid(g)} {member_tokens(t, i)} {proto.grid(og)} {same} 12"
+        return f"xf.disp_composite {d} {proto.grid(g)} {member_tokens(t, i)} {proto.grid(og)} {same}"
     if isinstance(t, S.NonRigidTransform):
         u = t.tensor()
         k = i if u.shape[0] > 1 else 0
@@ -474,7 +474,8 @@ def line_ml(c):
 def cmp_ml(c, r, out):
     if proto.is_error(out) or isinstance(r, str):
         return cmp_vec(r, out)
-    return cmp_vec(r, out.split("|")[0].strip())
+    coded, spec = [t.strip() for t in out.split("|")]
+    return cmp_vec(r, coded) or (cmp_vec(r, spec) and "vs documented sum: " + cmp_vec(r, spec))
 
 
 def _safe_line(fn):
@@ -506,14 +507,15 @@ STREAMS = PRIM_STREAMS + [
                "{own, foreign} to_grid"),
     Stream("disp", gen_disp, impl_disp, _safe_line(line_disp), cmp_generic,
            doc="disp(grid) / flow(grid) on the own grid, foreign oriented grids, the same samples with the other "
-               "align_corners flag, and resized grids; linear (affine_flow), composite (grid maps around forward), "
+               "align_corners flag, and resized grids; linear (affine_flow), composite (grid maps around forward, no rounding), "
                "non-rigid (resize / FlowFields.sample)"),
     Stream("warp", gen_warp, impl_warp, _safe_line(line_warp), cmp_warp,
            doc="ImageTransformer(transform, target, source)(image): random integer images and linear ramps, target in "
                "{None, other domain, resized, other align_corners}, source in {None, other, transform grid}, padding "
                "{border, zeros, constant}"),
     Stream("multilevel", gen_ml, impl_ml, _safe_line(line_ml), cmp_ml,
-           doc="MultiLevelTransform.forward for linear (summed matrices, as coded), non-linear and mixed member lists"),
+           doc="MultiLevelTransform.forward for linear (composite matrix sum A_i - (n-1) I | sum t_i), non-linear and mixed member lists; "
+               "also compared with the documented sum x + sum u_i(x) evaluated by the model"),
 ]
 
 
